@@ -436,6 +436,19 @@ class Rtg(Family):
         if out.shape != (len(rewards),) or arg != rewards:
             self.col.violation(SIG.format(self.entry, K_SHAPE), dict(rewards=rewards, shape=out.shape, argument_after=arg))
             return None
+        if all(float(r).is_integer() for r in rewards):
+            # environments return integer rewards too (Python int / numpy integer): the estimate is a property of
+            # the reward VALUES, so the same values with another number type must give the same result
+            for conv, label in ((int, "python-int"), (np.int64, "numpy-int64"), (np.float32, "numpy-float32")):
+                try:
+                    alt = np.asarray(discounted_reward_to_go([conv(r) for r in rewards], self.item["gamma"]), dtype=np.float64)
+                except Exception as e:  # noqa: BLE001
+                    raise Rejected(f"{type(e).__name__}: {e} (rewards as {label})") from e
+                self.col.tick(1)
+                if alt.shape != out.shape or not np.allclose(alt, np.asarray(out, dtype=np.float64), rtol=1e-6, atol=1e-6):
+                    self.col.violation(SIG.format(self.entry, "depends-on-reward-number-type"), dict(rewards=rewards, gamma=self.item["gamma"], number_type=label,
+                                                                                                   got=alt.tolist(), with_floats=np.asarray(out).tolist()))
+                    break
         return {(0, t): (float(out[t]),) for t in range(len(rewards))}
 
     def reference(self, ctx, i, t, cut=True):
